@@ -116,7 +116,7 @@ def stratified(vectors: List[Dict[str, Any]], cap: int, seed: int, key: Callable
 def default_key(v: Dict[str, Any]) -> str:
     e = v.get("expect", {})
     if v.get("kind") == "tablecheck":
-        return "%s|%s|%s|%s|%s" % (v["pred"], v["ina"], v["nfc"], v["warn"], e.get("passed"))
+        return "%s|%s|%s|%s|%s|%s" % (v["pred"], v["ina"], v["nfc"], v["warn"], e.get("passed"), v.get("ix"))
     if v.get("kind") == "multiindex":
         sc = v["schema"]
         return "%s|%s|%s|%s|%s" % (json.dumps(sc, sort_keys=True), [l["name"] for l in v["levels"]], [l["pd"] for l in v["levels"]],
